@@ -257,14 +257,17 @@ def obligations(tier):
     fx = [('nterm_ASP_LYS', ()), ('pep8', ()), ('lig_MTX', ()), ('pair_GLU_ARG_TYR', ()), ('pair_CYS_CYS_bridge', ())]
     if tier == 'thorough':
         fx += [('pair_ASP_ARG', ()), ('pair_LYS_ASP', ()), ('pair_ASP_ASP', ('-d',)), ('lig_KNI', ()), ('cterm_PHE', ()), ('tri_HIS', ()), ('nterm_ASP_LYS', ('-d',))]
-    from .micro import BURIED
-    for name, args in fx:
-      for params, ptag in ((None, ''), (BURIED, ',buried')):
+    from .micro import BURIED, COUPLED
+    fxp = [(n, a, p, t) for n, a in fx for p, t in ((None, ''), (BURIED, ',buried'))]
+    # non-covalently coupled pairs present; with -d the groups are left in the alternative (swapped) state
+    fxp += [(n, a, COUPLED, ',coupled') for n in (['pep8', 'pair_ASP_ARG'] if tier == 'quick' else ['pep8', 'pair_ASP_ARG', 'pair_ASP_ASP', 'pair_GLU_ARG_TYR', 'pair_LYS_ASP']) for a in (('-d',), ())]
+    for name, args, params, ptag in fxp:
+      if True:
         obs.append(Obligation('O2-pipeline-end-state[%s%s%s]' % (name, ',' + ' '.join(args) if args else '', ptag), mk_pipeline_sum(name, args, params),
                               code=['propka/conformation_container.py:ConformationContainer.calculate_pka', 'propka/conformation_container.py:ConformationContainer.coupling_effects',
                                     G + 'Group.remove_determinants', G + 'Group.calculate_total_pka', 'propka/molecular_container.py:MolecularContainer.average_of_conformations',
                                     'propka/output.py:get_determinant_section'],
-                              bounds='micro-structure %s %s%s under a symbolic grid translation t in [0,2.509] along z; whole pipeline' % (name, ' '.join(args), ' (Nmin/Nmax lowered to 6/30: burial, Coulomb, iterative and coupling paths active)' if params else ''),
+                              bounds='micro-structure %s %s%s under a symbolic grid translation t in [0,2.509] along z; whole pipeline' % (name, ' '.join(args), (' (Nmin/Nmax lowered to 6/30: burial, Coulomb, iterative paths active' + ('; coupling thresholds relaxed: non-covalently coupled pairs, swaps and the -d alternative state active' if params is COUPLED else '') + ')') if params else ''),
                               claim_doc='in every conformation and the average pKa == model + desolvation + the determinants then listed; written rows add up to the printed pKa',
                               max_paths=5000, wall_s=170 if tier == 'quick' else 1200))
     if tier == 'thorough':
